@@ -19,7 +19,8 @@
 (*   S a   derive a lazily from incomplete inputs (only if Unset) -> Stale *)
 (*   X a   reset a                             -> Unset                    *)
 (*   W a   write an output attribute (no status) / P a  peek (no effect)   *)
-(*   B t   the call is broken at this point in every state (pseudo attr t) *)
+(*   B t   the call is broken at this point in every state (pseudo attr t); *)
+(*         the steps after it say what the call does once that is repaired *)
 (*   A a b t  assert a == b: fails (pseudo attr t) if exactly one is Unset *)
 (*   I a s if a is Unset run sub-script s / J a s  if a is not Unset run s *)
 (*   C a deps key s   cached: if a is Unset run s and fill a (Def if all   *)
@@ -151,7 +152,8 @@ AssemblyScript(m) ==
       [] m = "calc_kM"    -> ASize \o PKM("p1", TRUE) \o PKM("p2", TRUE) \o <<StW("", "kM")>>
       [] m = "calc_kT_c"  -> ASize \o PK0c("p1", TRUE) \o PKG0c("p1", TRUE) \o PK0c("p2", TRUE)
                              \o PKG0c("p2", TRUE) \o AConn("self") \o <<StW("", "kT")>>
-      [] m = "calc_fint"  -> ASize \o PFint("p1", TRUE) \o <<StB("sum")>>               \* :700-704  0 += memoryview
+      [] m = "calc_fint"  -> ASize \o PFint("p1", TRUE) \o PFint("p2", TRUE) \o AConn("self")
+                             \o <<StW("", "fint")>>                                     \* :697-710  sum of the panels + k0_conn*c
       [] m = "calc_fext"  -> ASize \o PFext("p1") \o PFext("p2") \o <<StW("", "fext")>>
       [] m = "get_k0_conn"     -> AConn("self")
       [] m = "get_k0_conn_arg" -> AConn("arg")
@@ -216,8 +218,8 @@ BKA(k)  == BReb(k) \o StWs("p1", <<"flow", "Mach", "rho_air", "speed_sound">>) \
            \o <<StW("p1", "size"), StW("p1", "V"), StX("p1", "r")>>                  \* calc_kA :817-863  p.size = self.get_size(); p.r = self.r
            \o StWs("p1", <<"beta", "gamma", "aeromu">>) \o PKA("p1") \o <<StW("", "kA")>>
 BCA(k)  == BReb(k) \o BSize(k)                                                       \* calc_cA :882-922
-           \o (IF k = "BayBeta" THEN <<StD("p1", "size")>> \o PCA("p1") \o <<StW("", "cA")>>
-               ELSE <<StB("r_none")>>)                  \* Mach given on a flat bay: gamma = beta/(2.*self.r*...) with r None
+           \o (IF k = "BayBeta" THEN <<>> ELSE <<StB("r_none")>>)   \* Mach given on a flat bay: 2.*self.r with r None
+           \o <<StD("p1", "size")>> \o PCA("p1") \o <<StW("", "cA")>>
 BFext(k) == <<StR("", "model")>>                                                        \* calc_fext :1575-1633 (no _rebuild)
             \o (CASE k = "BayB2" -> <<StR("flange", "model")>> \o PGetSize("flange")
                   [] k = "BayT2" -> PGetSize("base") \o <<StR("base", "model")>> \o PGetSize("flange")
@@ -351,8 +353,8 @@ Run(steps, st) ==
               [] op = "S" -> Run(rest, IF st.d[a] = "Unset" THEN [st EXCEPT !.d[a] = "Stale"] ELSE st)
               [] op = "X" -> Run(rest, [st EXCEPT !.d[a] = "Unset"])
               [] op \in {"W", "P"} -> Run(rest, st)
-              [] op = "B" -> [st EXCEPT !.out = "fails", !.attr = a]
-              [] op = "A" -> IF (st.d[a] = "Unset") # (st.d[s[3]] = "Unset")
+              [] op = "B" -> IF st.skip THEN Run(rest, st) ELSE [st EXCEPT !.out = "fails", !.attr = a]
+              [] op = "A" -> IF ~st.skip /\ (st.d[a] = "Unset") # (st.d[s[3]] = "Unset")
                              THEN [st EXCEPT !.out = "fails", !.attr = s[4]] ELSE Run(rest, st)
               [] op = "I" -> IF st.d[a] = "Unset" THEN Run(s[3] \o rest, st) ELSE Run(rest, st)
               [] op = "J" -> IF st.d[a] # "Unset" THEN Run(s[3] \o rest, st) ELSE Run(rest, st)
@@ -367,9 +369,14 @@ Run(steps, st) ==
                                              !.reuse = IF st.k[a] # s[4] THEN @ \cup {a} ELSE @])
 
 NoAttr == <<"", "-">>
-Exec(k, m, d, key) ==
-    LET st == Run(Script(k, m), [d |-> d, k |-> key, out |-> "ok", attr |-> NoAttr, taint |-> {}, reuse |-> {}])
+ExecWith(k, m, d, key, skip) ==
+    LET st == Run(Script(k, m), [d |-> d, k |-> key, out |-> "ok", attr |-> NoAttr, taint |-> {}, reuse |-> {},
+                                 skip |-> skip])
     IN IF st.out = "ok" /\ (st.taint # {} \/ st.reuse # {}) THEN [st EXCEPT !.out = "wrong"] ELSE st
+Exec(k, m, d, key) == ExecWith(k, m, d, key, FALSE)
+(* the same call if its always-broken step / assertion (pseudo attributes) were repaired *)
+ExecRepaired(k, m, d, key) == ExecWith(k, m, d, key, TRUE)
+Pseudo(k, a) == a \notin Attrs(k)
 Result(k, m) == <<k, m>>      \* the value an "ok" call returns is a function of the definition only
 
 (* ----------------------------- deviations ----------------------------- *)
@@ -408,7 +415,6 @@ FailTable == {
   KFail("KF_C20_Panel_calc_fint_model", "Panel", "calc_fint", "F", "ValueError", "Invalid shape for Finput!"),
   KFail("KF_C20_Panel_calc_fint_model", "Assembly", "calc_fint", "model", "ValueError", "None is not a valid model option"),
   KFail("KF_C20_Panel_calc_fint_model", "Assembly", "calc_fint", "F", "ValueError", "Invalid shape for Finput!"),
-  KFail("KF_C20_Assembly_calc_fint_sum", "Assembly", "calc_fint", "sum", "TypeError", "unsupported operand type(s) for +=: 'int"),
   KFail("KF_C20_Bay_calc_kA_r", "Bay", "*", "r_mismatch", "AssertionError", ""),
   KFail("KF_C20_Bay_calc_cA_r", "Bay", "calc_cA", "r_none", "TypeError", "unsupported operand type(s) for *: 'floa"),
   KFail("KF_C20_Bay_calc_fext_model", "Bay", "calc_fext", "model", "KeyError", KeyNone),
@@ -450,6 +456,12 @@ Call(m) == LET st == Exec(kind, m, derived, ckey)
               /\ ckey' = st.k
               /\ last' = [m |-> m, out |-> st.out, attr |-> st.attr, taint |-> st.taint, reuse |-> st.reuse]
               /\ UNCHANGED kind
+(* trace validation: the observed call succeeded although a pseudo step says it cannot - follow the repaired script *)
+CallRepaired(m) == LET st == ExecRepaired(kind, m, derived, ckey)
+                   IN /\ derived' = st.d
+                      /\ ckey' = st.k
+                      /\ last' = [m |-> m, out |-> st.out, attr |-> st.attr, taint |-> st.taint, reuse |-> st.reuse]
+                      /\ UNCHANGED kind
 Next == /\ n < MaxLen
         /\ n' = n + 1
         /\ \E m \in Methods(kind) : Call(m)
